@@ -176,6 +176,132 @@ def w_list(exe, modes, strings, opts, prop, src, with_email=False, subrange=Fals
     return part
 
 
+def w_giant(exe, modes, size, opts, prop, which):
+    """Worker: one local part larger than the default 8 MiB stack, handed to the local validators directly (the property is over
+    every length; a scanner that copies its input onto the stack, or recurses per byte, dies here).  Judged by the regular-expression
+    recogniser, which runs at C speed (it agrees with the automaton on every enumerated and conformance string)."""
+    part = new_part()
+    opts = frozenset(opts)
+    n = size
+    shapes = {
+        "atom": b"a" * n,
+        "dots": b"a." * (n // 2) + b"b",
+        "quoted": b'"' + b"a\\ " * (n // 3) + b'a"',
+        "late-8bit": b"a" * n + b"\x80",
+        "late-space": b"a" * n + b" a",
+        "utf8": ("\u00e9" * (n // 2)).encode(),
+        "utf8-cut": ("\u00e9" * (n // 2)).encode() + b"\xc3",
+    }
+    b = shapes[which]
+    recs, crashes = driver.run_lines_resilient(exe, ["L " + driver.hx(b)])
+    for idx, sig, err in crashes:
+        part["viol"].append(("crash/%s" % sig, {"local_part": "%s (shape %s, %d bytes)" % (core.b2s(b[:40]), which, len(b)), "shape": which,
+                                                "bytes": len(b)}, {"stderr": err[-1500:], "source": "giant"}))
+    for rec in recs:
+        if rec is None:
+            continue
+        for mode in modes:
+            exp = OL.rx_accepts(mode, b, opts)
+            rc = rec[MODE_IDX[mode]]
+            part["counters"]["giant.%s.%s" % (mode, "accept" if rc == 0 else "reject")] += 1
+            if exp != (rc == 0):
+                part["viol"].append(("%s/giant/%s" % (mode, "accepts-invalid" if rc == 0 else "rejects-valid"),
+                                     {"mode": mode, "shape": which, "bytes": len(b), "local_part": core.b2s(b[:40]) + "..."},
+                                     {"library_rc": rc, "reference_accepts": exp, "source": "giant"}))
+    part["distinct"] = 1
+    part["counters"]["giant.strings"] += 1
+    part["counters"]["giant.bytes"] += len(b)
+    return part
+
+
+HUGE = 1 << 31
+
+
+def huge_cases(modes, tier):
+    """(unit, reps, tail, suffix) whose length straddles the widths of int / unsigned int.  The strings are built inside the driver."""
+    out = []
+    ascii_ = any(m != "6531" for m in modes)
+    if ascii_:
+        out += [(b"a", HUGE + 16, b"", b"@example.com")]
+        if tier != "quick":
+            out += [(b"a.", HUGE // 2, b"b", b""), (b"a", HUGE, b" ", b""), (b"a", 2 * HUGE, b"", b"@example.com"), (b"a", 2 * HUGE + 3, b"\x80", b""), (b'"a\\ ', HUGE // 4, b'"', b"@[1.2.3.4]"),
+                    (b"a", HUGE - 1, b"", b"@a.bc"), (b" ", 2 * HUGE, b"", b""), (b"a", 2 * HUGE, b".", b"")]
+    if "6531" in modes:
+        out += [(b"\xff", 2 * HUGE, b"", b""), (b"a", HUGE, b"", b"@example.com")]
+        if tier != "quick":
+            out += [("\u00e9".encode(), HUGE // 2 + 8, b"", b"@example.com"), ("\u00e9".encode(), HUGE, b"\xc3", b""),
+                    (b"\xff", 2 * HUGE, b"a", b""), (b"a", 2 * HUGE, b"\xff", b""), (b"a", 2 * HUGE + 1, b"", b""),
+                    ("\U0001f600".encode(), HUGE // 2, b".", b""), (b" ", 2 * HUGE, b"", b"@a.bc")]
+    return out
+
+
+def huge_jobs(exe, modes, tier, opts, prop, lanes=3, direct=True):
+    """The huge cases as at most `lanes` sequential lists (bounds the memory in use at any time).  direct=False: only the cases with
+    a domain behind them, and only through the high-level call."""
+    cases = huge_cases(modes, tier)
+    if not direct:
+        cases = [c for c in cases if c[3]]
+    return [(w_huge_list, (exe, modes, cases[i::lanes], opts, prop, direct)) for i in range(lanes) if cases[i::lanes]]
+
+
+def w_huge_list(exe, modes, cases, opts, prop, direct=True):
+    part = new_part()
+    for case in cases:
+        p = w_huge(exe, modes, case, opts, prop, direct)
+        part["counters"].update(p["counters"])
+        part["viol"] += p["viol"]
+        part["distinct"] += p["distinct"]
+    return part
+
+
+def w_huge(exe, modes, case, opts, prop, direct=True):
+    """Worker: one string of 2 GiB or more (lengths that do not fit an int / wrap an unsigned int), built by the driver's G op in an
+    uninstrumented -O2 build; verdict from the reference automaton iterated over the repeated unit."""
+    part = new_part()
+    opts = frozenset(opts)
+    unit, reps, tail, sfx = case
+    line = "G %x %s %d %s %s -" % ((0x10 if direct else 0) | sum(1 << MODE_IDX[m] for m in modes), driver.hx(unit), reps, driver.hx(tail), driver.hx(sfx))
+    n = len(unit) * reps + len(tail)
+    wit = {"unit": core.b2s(unit), "repetitions": reps, "tail": core.b2s(tail), "bytes": n, "suffix": core.b2s(sfx)}
+    try:
+        recs = driver.run_lines(exe, [line], timeout=1500)
+    except driver.DriverCrash as c:
+        part["viol"].append(("huge/crash/%s" % c.signature(), wit, {"stderr": c.stderr[-1500:]}))
+        return part
+    except driver.DriverHang:
+        try:                                   # a watchdog alone decides nothing: once more, alone
+            recs = driver.run_lines(exe, [line], timeout=1500)
+        except driver.DriverHang:
+            part["viol"].append(("huge/hang/no-termination-within-1500s-twice", wit, {"timeout_s": 1500}))
+            return part
+        except driver.DriverCrash as c:
+            part["viol"].append(("huge/crash/%s" % c.signature(), wit, {"stderr": c.stderr[-1500:]}))
+            return part
+    rec = recs[0]
+    if not isinstance(rec, dict) or "skip" in rec or "n" not in rec:
+        part["counters"]["huge.skipped-no-memory"] += 1
+        return part
+    for mode in modes:
+        if "l" in rec:
+            exp = OL.accepts_repeated(mode, unit, reps, tail, opts)
+            rc = rec["l"][MODE_IDX[mode]]
+            part["counters"]["huge.%s.%s" % (mode, "accept" if rc == 0 else "reject")] += 1
+            if exp != (rc == 0):
+                part["viol"].append(("%s/huge/%s" % (mode, "accepts-invalid" if rc == 0 else "rejects-valid"),
+                                     dict(wit, mode=mode), {"library_rc": rc, "reference_accepts": exp, "source": "huge"}))
+        h = (rec.get("hl") or {}).get(str(MODE_IDX[mode]))
+        if h is not None and h[0] >= 0:
+            part["counters"]["huge.email.%s" % mode] += 1
+            # a local part of more than 64 bytes: not an address; no form flag, negative result code
+            if h[0] != 0 or h[3] or h[4] or h[5] or h[6] >= 0:
+                part["viol"].append(("%s/huge/email-%s" % (mode, "accepted" if h[0] else "record-inconsistent"), dict(wit, mode=mode),
+                                     {"ret": h[0], "errcode": h[1], "flags": h[3:6], "rc": h[6], "source": "huge"}))
+    part["distinct"] = 1
+    part["counters"]["huge.strings"] += 1
+    part["counters"]["huge.bytes"] += n
+    return part
+
+
 def width_boundary_strings(tier, utf8=False):
     """Inputs that straddle the widths a length / index / run counter might have (2^8, 2^15, 2^16): a long valid body with the
     deciding byte placed right at, before and after the boundary; long runs of one structural unit inside quotes."""
